@@ -202,12 +202,41 @@ class HandleGen(object):
         self.s.op("dump_vnacal $%s" % vcname)
         return True
 
+    def step_manycal(self, vcname):
+        """a burst of solve + add_calibration under many different names:
+        the calibration table grows past 8 and 16 slots (with holes from
+        earlier deletions in it)"""
+        r = self.rng
+        vc = self.vcs[vcname]
+        full = [v for v in vc["vns"].values() if v.next >= len(v.sc.stds)]
+        if not full:
+            return False
+        vn = full[int(r.integers(0, len(full)))]
+        for _ in range(int(r.integers(3, 11))):
+            self.s.op("vnacal_new_solve $%s" % vn.name)
+            vn.any_solve = True
+            name = "M%d" % int(r.integers(0, 20))
+            civ = self.uid("ci")
+            ln = self.s.op("%s=vnacal_add_calibration $%s %s $%s" % (
+                civ, vcname, qs(name), vn.name))
+            self.addcals[ln] = dict(sc=vn.sc, kappa=vn.kappa, complete=True)
+            vc["civars"].append((civ, ln, vn.sc))
+            self.s.op("vnacal_find_calibration $%s %s" % (vcname, qs(name)))
+            if r.random() < 0.25:
+                self.s.op("vnacal_delete_calibration $%s %s" % (
+                    vcname, self.some_ci(vcname)))
+        vn.solved_after_last_add = False
+        self.s.op("vnacal_get_calibration_end $%s" % vcname)
+        self.s.op("dump_vnacal $%s" % vcname)
+        return True
+
     def some_ci(self, vcname):
         r = self.rng
         vc = self.vcs[vcname]
         if vc["civars"] and r.random() < 0.7:
             return "$" + vc["civars"][int(r.integers(0, len(vc["civars"])))][0]
-        return str(int(r.choice([-1, 0, 0, 1, 1, 2, 3, 4, 7, 8, 100, -2])))
+        return str(int(r.choice([-1, 0, 0, 1, 1, 2, 3, 4, 7, 8, 9, 15, 16, 17,
+                                 100, -2])))
 
     def step_reload(self, vcname):
         """save the vnacal_t and load the file into a NEW vnacal_t that takes
@@ -476,7 +505,8 @@ class HandleGen(object):
                  (self.step_make, 7), (self.step_delparam, 9),
                  (self.step_probe, 7), (self.step_value, 5),
                  (self.step_free, 2), (self.step_apply, 4),
-                 (self.step_foreign, 1), (self.step_reload, 2)]
+                 (self.step_foreign, 1), (self.step_reload, 2),
+                 (self.step_manycal, 2)]
         w = np.array([x[1] for x in steps], dtype=float)
         w /= w.sum()
         guard = 0
